@@ -904,6 +904,7 @@ func gen(x *hxlib.Ctx) {
 	}
 
 	genPcm(x, kr)
+	genPcmHist(x, kr)
 
 	// canaries: wrong observations the model must flag
 	{
@@ -916,6 +917,7 @@ func gen(x *hxlib.Ctx) {
 		x.Emit(hxlib.Case{Kind: "canary", Canary: true, Coq: fmt.Sprintf("(let d := %s in CPart d %s 1 (Sg 3 d) (PIndex 1))", d.coq(), c.coqVals())})
 		od := otherDecision(r, d, "round+1")
 		x.Emit(hxlib.Case{Kind: "canary", Canary: true, Coq: fmt.Sprintf("(let d := %s in CPartSeq %s 0 (Sg 3 d) [(d, PIndex 0); (%s, PIndex 0)])", d.coq(), c.coqVals(), od.coq())})
+		x.Emit(hxlib.Case{Kind: "canary", Canary: true, Coq: "(CPcmHist [Cx 1 [Some 1]] [HHas 0 1 true; HUpdate 0 [] [1%Z]; HHas 0 1 false; HHas 1 1 false])"})
 		x.Emit(hxlib.Case{Kind: "canary", Canary: true, Coq: fmt.Sprintf("(let d := %s in CVerifySeq %s %s [(d, true); (%s, true)])", d.coq(), c.coqVals(), coqEntries(es, d), od.coq())})
 	}
 }
@@ -1024,6 +1026,9 @@ func replay(raw json.RawMessage) string {
 		return replayOne(in)
 	case "pcm":
 		return replayPcm(raw)
+	case "pcmhist":
+		ntm.InitIconModule()
+		return replayPcmHist(raw)
 	case "partseq", "verifyseq":
 		return replaySeq(raw)
 	}
@@ -1033,7 +1038,7 @@ func replay(raw json.RawMessage) string {
 func main() {
 	hxlib.Main(hxlib.Spec{
 		ID: "C29",
-		Rule: "proof contexts of n=0..10 real secp256k1 keys (eth and icon network type modules, with and without key-less validators, built directly and re-read from bytes); for every n signature vectors with k valid signatures at their own positions for k in {0,1,f-1,f,f+1,f+2,n-1,n}, f=floor(2n/3), as long, shortened and nil-extended vectors, alone and with ONE entry that must not count: foreign key, another validator's signature (wrong index), a signature over another decision (src/ntid/height/round/section hash), over the other module's hash, bit-flipped r/s/v, zero/V-less/bad-V bytes, a signature at a key-less position, beyond the context, a signer repeated at a second position (all kinds at k=f and f+1, a sample elsewhere); rotated vectors; single proof parts through VerifyPart (right, other index, -1, n, huge, no signature, foreign, other decision, tampered); SEQUENCES of VerifyPart calls on one decoded part object and of Verify calls on one proof object (decoded, or built by NewProof+Add from parts already verified) with different decisions per call (right/other, other/right, …), every call judged on its own; digests of 1..3 network types through proofContextMap.Verify with missing/extra/swapped/undecodable/insufficient proofs and wrong height/round/source. non-trivial = non-empty context and non-empty vector; distinct = distinct Coq case term",
+		Rule: "proof contexts of n=0..10 real secp256k1 keys (eth and icon network type modules, with and without key-less validators, built directly and re-read from bytes); for every n signature vectors with k valid signatures at their own positions for k in {0,1,f-1,f,f+1,f+2,n-1,n}, f=floor(2n/3), as long, shortened and nil-extended vectors, alone and with ONE entry that must not count: foreign key, another validator's signature (wrong index), a signature over another decision (src/ntid/height/round/section hash), over the other module's hash, bit-flipped r/s/v, zero/V-less/bad-V bytes, a signature at a key-less position, beyond the context, a signer repeated at a second position (all kinds at k=f and f+1, a sample elsewhere); rotated vectors; single proof parts through VerifyPart (right, other index, -1, n, huge, no signature, foreign, other decision, tampered); SEQUENCES of VerifyPart calls on one decoded part object and of Verify calls on one proof object (decoded, or built by NewProof+Add from parts already verified) with different decisions per call (right/other, other/right, …), every call judged on its own; histories over proof-context-map versions (M0 from state; Update by a section that only inactivates a network type / inactivates and changes a context / changes a context / activates a type / changes nothing; Verify with all proofs, with the victim type's proof missing, with a digest without it, and ProofContextFor, asked of EVERY version before and after every Update); digests of 1..3 network types through proofContextMap.Verify with missing/extra/swapped/undecodable/insufficient proofs and wrong height/round/source. non-trivial = non-empty context and non-empty vector; distinct = distinct Coq case term",
 		Gen:  gen, Replay: replay,
 	})
 }
